@@ -1028,6 +1028,12 @@ data_connection_ptr client::process_port_command(std::string_view command, repli
 
 std::string client::make_port_command(const boost::asio::ip::tcp::endpoint & endpoint)
 {
+    /* The PORT command can carry only an IPv4 address (RFC 959). */
+    if (!endpoint.address().is_v4())
+    {
+        throw ftp_exception("Cannot make the PORT command. The IP address type is invalid.");
+    }
+
     std::string command = "PORT";
     command.append(" ");
 
